@@ -3,7 +3,7 @@
 generated describe tables and a monitor program. Everything is cached under
 /verif/.cache/<flavor>-<hash of the tree + flags>, so an edited tree is always rebuilt.
 """
-import hashlib, os, sys, subprocess, json, re, shutil, glob, time
+import hashlib, os, sys, subprocess, json, re, shutil, glob, time, fcntl, contextlib
 from concurrent.futures import ThreadPoolExecutor
 
 VERIF = os.path.dirname(os.path.dirname(os.path.abspath(__file__)))
@@ -24,6 +24,18 @@ FLAVORS = {
                                          "-fno-sanitize=enum,object-size", "-fno-sanitize-recover=all"],
                  link=["-fsanitize=fuzzer,address,undefined"]),
 }
+
+
+@contextlib.contextmanager
+def locked(name):
+    """Serialise concurrent vcheck processes that would build into the same cache entry."""
+    os.makedirs(CACHE, exist_ok=True)
+    f = open(os.path.join(CACHE, "lock-" + re.sub(r"\W+", "_", name)), "w")
+    try:
+        fcntl.flock(f, fcntl.LOCK_EX)
+        yield
+    finally:
+        fcntl.flock(f, fcntl.LOCK_UN); f.close()
 
 
 def sh(cmd, **kw):
@@ -103,6 +115,11 @@ def prune(flavor, keep):
 
 
 def build_flavor(flavor, log=sys.stderr):
+    with locked(os.path.basename(flavor_dir(flavor))):
+        return _build_flavor(flavor, log)
+
+
+def _build_flavor(flavor, log=sys.stderr):
     d = flavor_dir(flavor)
     lib = os.path.join(d, "libtins.a")
     if os.path.exists(lib) and os.path.exists(os.path.join(d, "ok")):
@@ -149,6 +166,11 @@ def gen_dir():
 
 
 def gen_with_probe(log=sys.stderr):
+    with locked(os.path.basename(gen_dir())):
+        return _gen_with_probe(log)
+
+
+def _gen_with_probe(log=sys.stderr):
     """Generate gen_tins.inc from the current headers; drop generated lines the compiler
     rejects (recorded in dropped.json and shown in evidence as 'not swept')."""
     d = gen_dir()
@@ -209,6 +231,11 @@ def gen_with_probe(log=sys.stderr):
 
 
 def corpus(log=sys.stderr):
+    with locked("corpus"):
+        return _corpus(log)
+
+
+def _corpus(log=sys.stderr):
     """Seed corpus extracted from the unit tests of the current tree + /verif/corpus/*.hex."""
     h = hashlib.sha256()
     fs = sorted(glob.glob(os.path.join(REPO, "tests", "src", "**", "*.cpp"), recursive=True)) + sorted(glob.glob(os.path.join(VERIF, "corpus", "*.hex")))
@@ -231,6 +258,11 @@ def corpus(log=sys.stderr):
 
 
 def build_view_impl(flavor, fd, gd, log):
+    with locked(os.path.basename(fd) + "-view"):
+        return _build_view_impl(flavor, fd, gd, log)
+
+
+def _build_view_impl(flavor, fd, gd, log):
     """view_impl.cpp (generated describe machinery) compiled once per flavor/tree/generator state."""
     fl = FLAVORS[flavor]
     h = hashlib.sha256()
@@ -255,6 +287,11 @@ def build_view_impl(flavor, fd, gd, log):
 
 
 def build_harness(src, flavor, log=sys.stderr, extra=None):
+    with locked("harness-%s-%s" % (flavor, src)):
+        return _build_harness(src, flavor, log, extra)
+
+
+def _build_harness(src, flavor, log=sys.stderr, extra=None):
     """Compile harness/<src> against the flavor; returns path of the binary."""
     fd = build_flavor(flavor, log)
     gd = gen_with_probe(log)
